@@ -83,7 +83,7 @@ theorem owns_node_congr {st st' : State} {c : Var}
     where afterwards exactly the member objects of the new items are live. -/
 theorem node_local {st st' : State} (h : SInv st) (c : Var) (I F : List Item)
     (hnodes : st'.nodes = upd st.nodes c { st.nodes c with items := I, free := F })
-    (harrs : st'.arrs = st.arrs) (hblk : st'.blk = st.blk) (hnext : st'.next = st.next)
+    (harrs : st'.arrs = st.arrs) (hblk : st'.blk = st.blk) (hnext : st'.next = st.next) (hper : st'.per = st.per)
     (hnd : (I ++ F).Nodup)
     (hset : ∀ it, it ∈ I ++ F ↔ it ∈ (st.nodes c).items ++ (st.nodes c).free)
     (hout : ∀ l, ¬ inSlots st c l → (st'.mem l).isSome = (st.mem l).isSome)
@@ -113,8 +113,8 @@ theorem node_local {st st' : State} (h : SInv st) (c : Var) (I F : List Item)
     · rw [ho c' hc']; exact h.slots_nodup c'
   · intro c' it hi
     by_cases hc' : c' = c
-    · subst hc'; rw [hc] at hi ⊢; exact h.slots_in c' it ((hset it).mp hi)
-    · rw [ho c' hc'] at hi ⊢; exact h.slots_in c' it hi
+    · subst hc'; rw [hc] at hi ⊢; rw [hper]; exact h.slots_in c' it ((hset it).mp hi)
+    · rw [ho c' hc'] at hi ⊢; rw [hper]; exact h.slots_in c' it hi
   · intro c'
     by_cases hc' : c' = c
     · subst hc'; rw [hc]; exact h.blocks_nodup c'
@@ -125,7 +125,7 @@ theorem node_local {st st' : State} (h : SInv st) (c : Var) (I F : List Item)
     · rw [ho c' hc']; exact h.data_notin c' d
   · intro o o' b h1 h2; exact h.own_unique o o' b ((hown o b).mp h1) ((hown o' b).mp h2)
   · intro c' b hb
-    rw [hblk]
+    rw [hblk, hper]
     by_cases hc' : c' = c
     · subst hc'; rw [hc] at hb; exact h.blocks_blk c' b hb
     · rw [ho c' hc'] at hb; exact h.blocks_blk c' b hb
@@ -200,7 +200,7 @@ theorem SInv.owns_blk {st : State} (h : SInv st) {o : Owner} {b : Nat} (ho : own
   cases o with
   | node c =>
     rcases ho with ho | ho
-    · exact ⟨4, h.blocks_blk c b ho⟩
+    · exact ⟨_, h.blocks_blk c b ho⟩
     · exact ⟨0, h.data_blk c b ho⟩
   | arr a => exact ⟨_, h.store_blk a b ho⟩
 
@@ -214,13 +214,13 @@ theorem SInv.owns_lt {st : State} (h : SInv st) {o : Owner} {b : Nat} (ho : owns
     its items, and all memory, stay. -/
 theorem node_alloc {st st' : State} (h : SInv st) (c : Var) (n' : Node) (k : Nat)
     (hnodes : st'.nodes = upd st.nodes c n') (harrs : st'.arrs = st.arrs) (hmem : st'.mem = st.mem)
-    (hblk : st'.blk = upd st.blk st.next (some k)) (hnext : st'.next = st.next + 1)
+    (hblk : st'.blk = upd st.blk st.next (some k)) (hnext : st'.next = st.next + 1) (hper : st'.per = st.per)
     (hitems : n'.items = (st.nodes c).items) (halive : n'.alive = true) (halive0 : (st.nodes c).alive = true)
     (hvalid : c.valid = true)
     (hnd : (n'.items ++ n'.free).Nodup)
-    (hin : ∀ it, it ∈ n'.items ++ n'.free → it.b ∈ n'.blocks ∧ it.i < 4)
+    (hin : ∀ it, it ∈ n'.items ++ n'.free → it.b ∈ n'.blocks ∧ it.i < st.per.f c.k)
     (hbn : n'.blocks.Nodup) (hdn : ∀ d, n'.data = some d → d ∉ n'.blocks)
-    (hbb : ∀ x, x ∈ n'.blocks → st'.blk x = some 4) (hdb : ∀ d, n'.data = some d → st'.blk d = some 0)
+    (hbb : ∀ x, x ∈ n'.blocks → st'.blk x = some (st.per.f c.k)) (hdb : ∀ d, n'.data = some d → st'.blk d = some 0)
     (hown : ∀ x, (x ∈ n'.blocks ∨ n'.data = some x) ↔ ((x ∈ (st.nodes c).blocks ∨ (st.nodes c).data = some x) ∨ x = st.next)) :
     SInv st' := by
   have hc : st'.nodes c = n' := by rw [hnodes]; exact upd_same _ _ _
@@ -260,8 +260,8 @@ theorem node_alloc {st st' : State} (h : SInv st) (c : Var) (n' : Node) (k : Nat
     · rw [ho c' hc']; exact h.slots_nodup c'
   · intro c' it hi
     by_cases hc' : c' = c
-    · subst hc'; rw [hc] at hi ⊢; exact hin it hi
-    · rw [ho c' hc'] at hi ⊢; exact h.slots_in c' it hi
+    · subst hc'; rw [hc] at hi ⊢; rw [hper]; exact hin it hi
+    · rw [ho c' hc'] at hi ⊢; rw [hper]; exact h.slots_in c' it hi
   · intro c'
     by_cases hc' : c' = c
     · subst hc'; rw [hc]; exact hbn
@@ -280,8 +280,8 @@ theorem node_alloc {st st' : State} (h : SInv st) (c : Var) (n' : Node) (k : Nat
       · rfl
   · intro c' b hb
     by_cases hc' : c' = c
-    · subst hc'; rw [hc] at hb; exact hbb b hb
-    · rw [ho c' hc'] at hb; exact hblk_old b 4 (h.blocks_blk c' b hb)
+    · subst hc'; rw [hc] at hb; rw [hper]; exact hbb b hb
+    · rw [ho c' hc'] at hb; rw [hper]; exact hblk_old b _ (h.blocks_blk c' b hb)
   · intro c' d hd
     by_cases hc' : c' = c
     · subst hc'; rw [hc] at hd; exact hdb d hd
